@@ -20,6 +20,7 @@ import (
 	"net"
 	"net/http"
 	"strconv"
+	"strings"
 
 	"github.com/caddyserver/certmagic"
 	"github.com/tmpim/casket"
@@ -220,12 +221,16 @@ func redirPlaintextHost(cfg *SiteConfig) *SiteConfig {
 			toURL := "https://"
 			requestHost, _, err := net.SplitHostPort(r.Host)
 			if err != nil {
-				requestHost = r.Host // Host did not contain a port, so use the whole value
+				// Host did not contain a port, so use the whole value
+				// (less the brackets of an IPv6 literal)
+				requestHost = strings.TrimSuffix(strings.TrimPrefix(r.Host, "["), "]")
 			}
-			if redirPort == "" {
-				toURL += requestHost
-			} else {
-				toURL += net.JoinHostPort(requestHost, redirPort)
+			if strings.Contains(requestHost, ":") {
+				requestHost = "[" + requestHost + "]" // IPv6 literal
+			}
+			toURL += requestHost
+			if redirPort != "" {
+				toURL += ":" + redirPort
 			}
 
 			toURL += r.URL.RequestURI()
